@@ -167,6 +167,12 @@ fn main() {
             Some(m) => (m, true),
             None => (mode, false),
         };
+        // every grammar text is moved into place with a modification time OLDER than any destination's (a restored
+        // backup, `cp -p`, an archive extraction): what is current is decided by content, not by time stamps
+        let (mode, oldsrc) = match mode.strip_suffix("+oldsrc") {
+            Some(m) => (m, true),
+            None => (mode, false),
+        };
         // the grammar file's name has more than one dot; in directory mode a sibling shares its first component
         let (mode, dots) = match mode.strip_suffix("+dots") {
             Some(m) => (m, true),
@@ -216,7 +222,13 @@ fn main() {
             if let Some(g) = st.strip_prefix("e:") {
                 src = if g == "missing" { g.to_string() } else { format!("{set}{g}") };
                 match grammar_text(&src) {
-                    Some(t) => std::fs::write(&src_path, t).unwrap(),
+                    Some(t) => {
+                        std::fs::write(&src_path, t).unwrap();
+                        if oldsrc {
+                            let older = SystemTime::UNIX_EPOCH + Duration::from_secs(900_000_000);
+                            std::fs::File::options().write(true).open(&src_path).unwrap().set_modified(older).unwrap();
+                        }
+                    }
                     None => {
                         let _ = std::fs::remove_file(&src_path);
                     }
